@@ -5,6 +5,7 @@ CONSTANTS
   MaxFrames = 2
   MaxCancels = 2
   Fixes = {}
+  CfgSet <- ConfigsX
   MaxSteps = 7
 SPECIFICATION GenSpec
 CONSTRAINT GenConstraint
